@@ -78,6 +78,16 @@ func c11Plan(seed int64, tier string) []core.Case {
 		}
 		cs = append(cs, core.Case{Kind: "bam-aux", Seed: core.SubSeed(seed, "c11", "bam-aux", p), P: map[string]int64{"part": int64(p), "n": c11AuxPart}})
 	}
+	// bam-fields: every fixed-size field of the BAM header and of a record
+	// set to every value of a list (edges of its own range, the sizes of the
+	// surrounding data +-1), under every Omit mode and rd 1 and 2.
+	fparts := (len(c11FieldFamily()) + c11AuxPart - 1) / c11AuxPart
+	for p := 0; p < fparts; p++ {
+		if tier != "thorough" && (p+rng.Intn(3))%3 != 0 {
+			continue
+		}
+		cs = append(cs, core.Case{Kind: "bam-fields", Seed: core.SubSeed(seed, "c11", "bam-fields", p), P: map[string]int64{"part": int64(p), "n": c11AuxPart}})
+	}
 	tparts := (len(c11AuxTextFamily()) + c11AuxPart - 1) / c11AuxPart
 	for p := 0; p < tparts; p++ {
 		if tier != "thorough" && (p+rng.Intn(3))%3 != 0 {
@@ -91,6 +101,76 @@ func c11Plan(seed int64, tier string) []core.Case {
 const c11AuxPart = 400
 
 var c11EmptyHdr, _ = sam.NewHeader(nil, nil)
+
+var c11FieldFam [][]byte
+
+// c11FieldFamily enumerates BAM streams (uncompressed) in which one
+// fixed-size field holds a chosen value. Each stream appears six times in a
+// row; position mod 6 is the reader variant (Omit mode, rd).
+func c11FieldFamily() [][]byte {
+	if c11FieldFam != nil {
+		return c11FieldFam
+	}
+	refs := []oracle.RefSpec{{Name: "chr1", Len: 100000}, {Name: "chr2", Len: 5000}}
+	text := []byte("@HD\tVN:1.6\n@SQ\tSN:chr1\tLN:100000\n@SQ\tSN:chr2\tLN:5000\n")
+	hdr := oracle.EncodeBAMHeader(text, refs)
+	tl := 8 + len(text) // offset of n_ref
+	recs := []oracle.Rec{
+		{Name: "read1", RefID: 0, Pos: 100, MapQ: 30, Flags: 0x63, Cigar: []oracle.CigOp{{Op: 4, Len: 2}, {Op: 0, Len: 8}}, MateRefID: 1, MatePos: 300, TLen: 210,
+			Seq: "ACGTACGTAC", Qual: []byte{30, 30, 30, 30, 30, 30, 30, 30, 30, 30}, Aux: []oracle.AuxF{{Tag: [2]byte{'N', 'M'}, Type: 'C', Int: 1}, {Tag: [2]byte{'X', 'S'}, Type: 'Z', Data: []byte("abc")}}},
+		{Name: "r", RefID: -1, Pos: -1, Flags: 4, MateRefID: -1, MatePos: -1, Seq: "ACG", Aux: []oracle.AuxF{{Tag: [2]byte{'X', 'B'}, Type: 'B', Sub: 's', Ints: []int64{1, -2, 3}}}},
+	}
+	var out [][]byte
+	put := func(b []byte) {
+		for v := 0; v < 6; v++ {
+			out = append(out, b)
+		}
+	}
+	vals := func(width int, near ...int) []uint32 {
+		vs := []uint32{0, 1, 2, 0x7f, 0x80, 0xff}
+		if width >= 2 {
+			vs = append(vs, 0x100, 0x7fff, 0x8000, 0xffff)
+		}
+		if width == 4 {
+			vs = append(vs, 0x10000, 0x7fffffff, 0x80000000, 0xffffffff, 0xfffffffe, 0x40000000, 0x20000001, 0x55555556)
+		}
+		for _, n := range near {
+			for d := -2; d <= 2; d++ {
+				vs = append(vs, uint32(n+d))
+			}
+			vs = append(vs, uint32(2*n), uint32(2*n+1), uint32(n/2))
+		}
+		return vs
+	}
+	set := func(b []byte, off, width int, v uint32) []byte {
+		c := append([]byte(nil), b...)
+		for k := 0; k < width; k++ {
+			c[off+k] = byte(v >> (8 * uint(k)))
+		}
+		return c
+	}
+	for _, rec := range recs {
+		enc := oracle.EncodeBAMRecord(rec, true)
+		raw := append(append([]byte(nil), hdr...), enc...)
+		// a second, well-formed record follows so that reading goes on
+		raw = append(raw, oracle.EncodeBAMRecord(recs[1], true)...)
+		rlen := len(enc) - 4
+		ro := len(hdr) // offset of block_size
+		type fld struct{ off, width int }
+		fields := []fld{{ro, 4}, {ro + 4, 4}, {ro + 8, 4}, {ro + 12, 1}, {ro + 13, 1}, {ro + 14, 2}, {ro + 16, 2}, {ro + 18, 2}, {ro + 20, 4}, {ro + 24, 4}, {ro + 28, 4}, {ro + 32, 4},
+			{4, 4}, {tl, 4}, {tl + 4, 4}, {tl + 4 + 4 + 5, 4}} // l_text, n_ref, l_name, l_ref of chr1
+		for _, f := range fields {
+			for _, v := range vals(f.width, rlen, len(rec.Seq), len(rec.Name)+1, len(rec.Cigar), len(raw)) {
+				if f.width < 4 && v>>(8*uint(f.width)) != 0 {
+					continue
+				}
+				put(set(raw, f.off, f.width, v))
+			}
+		}
+	}
+	c11FieldFam = out
+	return out
+}
 
 var c11AuxTextFam [][]byte
 
@@ -580,7 +660,7 @@ func c11Decode(e string, in []byte, variant int) (reads int, over bool) {
 			r.Close()
 		}
 		return st.n, st.over
-	case "bam", "bam-aux":
+	case "bam", "bam-aux", "bam-fields":
 		st := newStep(in)
 		br, err := bam.NewReader(st, 1+variant/3)
 		if err == nil {
@@ -767,6 +847,13 @@ func c11Run(c core.Case) *core.Result {
 			valid = append(valid, fam[i])
 		}
 		n = len(valid)
+	case "bam-fields":
+		fam := c11FieldFamily()
+		lo := c.Int("part") * c11AuxPart
+		for i := lo; i < lo+c11AuxPart && i < len(fam); i++ {
+			valid = append(valid, fam[i])
+		}
+		n = len(valid)
 	case "bam-aux":
 		fam := c11AuxFamily()
 		lo := c.Int("part") * c11AuxPart
@@ -867,6 +954,10 @@ func c11Run(c core.Case) *core.Result {
 			seen[string(in)] = true
 			nt++
 		}
+		if e == "bam-fields" {
+			data = gen.FileFromData(rng, in, nil, 0, true).Bytes
+			nt++ // every (stream, variant) pair is distinct by construction
+		}
 		if e == "bam-aux" {
 			data = gen.FileFromData(rng, in, nil, 0, true).Bytes
 			if !seen[string(in)] {
@@ -888,6 +979,9 @@ func c11Run(c core.Case) *core.Result {
 		variant := rng.Intn(6)
 		if e == "bam-aux" {
 			variant = 3 * (variant % 2) // aux fields are only parsed without Omit
+		}
+		if e == "bam-fields" {
+			variant = (c.Int("part")*c11AuxPart + i) % 6
 		}
 		if from, ok := c.P["from"]; ok && int64(i) < from {
 			continue
